@@ -40,7 +40,7 @@ TraceNext ==
         /\ IF ~e.equal THEN Rej(e, "C01:reparsed_object_not_equal") ELSE TRUE
         /\ IF ~e.same_text THEN Rej(e, "C01:second_serialization_differs") ELSE TRUE
         /\ IF ~e.options_equal THEN Rej(e, "C01:serialization_options_denote_different_values") ELSE TRUE
-        /\ IF e.key \in DOMAIN Types /\ \E i \in DOMAIN e.dropped : ~Defaultable(e.key, e.dropped[i]) THEN Rej(e, "C01:dropped_property_is_not_an_optional_default") ELSE TRUE
+        /\ IF e.key \in DOMAIN Types /\ \E i \in DOMAIN e.dropped : Known(e.key, e.dropped[i]) /\ ~Defaultable(e.key, e.dropped[i]) THEN Rej(e, "C01:dropped_property_is_not_an_optional_default") ELSE TRUE
         /\ IF e.key \in DOMAIN Types /\ ~PrettyOK(e.key, e.pretty) THEN Rej(e, "C01:pretty_output_not_in_specification_order") ELSE TRUE
      ELSE IF e.kind = "custom" THEN
         /\ IF e.mode = "strict" /\ ~e.refused THEN Rej(e, "C04:custom_content_admitted_in_strict_mode") ELSE TRUE
